@@ -109,9 +109,57 @@ def run(ctx):
                                           {"source": open(src).read(), "flags": flags, "backend": backend, "trace": view[:4000]})
                 finally:
                     os.remove(cfg)
+    storms(ctx)
     ctx.assumptions += ["sequentially consistent memory (all protocol atomics are SeqCst in the code)",
                         "the operation inside the stop-the-world closure is abstracted to one begin/end pair",
                         "real-executable schedules are those the OS produces under gc-stress; exhaustiveness is in the model and the gate replays"]
+
+
+def storms(ctx):
+    """stop-the-world storms: back-to-back operations requested by several threads. Judged by the property layer only
+    (AbstractStwTrace + clean completion); the budget grows when the faithful model reported drift (DESIGN 2.8)."""
+    escalate = bool(ctx.drift)
+    plan = [(3, 300, 1)] if (ctx.quick and not escalate) else [(3, 400, 2), (4, 1500, 3)] if ctx.quick else [(3, 400, 2), (4, 2000, 4), (6, 500, 2)]
+    for threads, iters, reps in plan:
+        seed = ctx.seed * 1000 + threads
+        src = os.path.join(ctx.work, f"storm{threads}_{iters}.dora")
+        open(src, "w").write(stw_workloads.storm(seed, threads, iters))
+        combos = (("cannon", "copy"), ("boots", None))
+        if ctx.quick and not escalate:
+            combos = combos[ctx.seed % 2:ctx.seed % 2 + 1]
+        for backend, gc in combos:
+            exe = os.path.join(ctx.work, f"storm{threads}_{iters}_{backend}")
+            b, msg = progs.compile_prog(src, exe, backend=backend, gc=gc)
+            if b is None:
+                raise ToolError(f"storm workload does not compile: {msg}")
+            for rep in range(reps):
+                trace = exe + f"_{rep}.ndjson"
+                what = f"stop-the-world storm threads={threads} iters={iters} backend={backend} gc={gc or 'default'} run={rep}"
+                r = progs.run_prog(exe, env={"DORA_VERIF_TRACE": trace}, timeout=300)
+                ctx.add("storm_runs")
+                if r.timed_out:
+                    r2 = progs.run_prog(exe, timeout=600)
+                    if r2.timed_out:
+                        ctx.violation(f"{what}: hang (every stop-the-world request must complete and every thread resume)",
+                                      {"source": open(src).read(), "backend": backend, "gc": gc}, key="storm-hang")
+                    continue
+                if r.rc != 0 or r.out.strip() != "done":
+                    ctx.violation(f"{what}: ended with {r.ending()}; stderr: {r.err[-600:]!r}",
+                                  {"source": open(src).read(), "backend": backend, "gc": gc, "stderr": r.err[-3000:]}, key="storm-crash")
+                    return
+                view = traces.safepoint_view(traces.load(trace))
+                vfile = trace.replace(".ndjson", ".sp.ndjson")
+                traces.dump(view, vfile)
+                rp = validate_trace("AbstractStwTrace", "AbstractStwTrace.cfg", vfile, timeout=900)
+                ctx.tlc_stats(rp, f"P-layer trace {what} ({len(view)} events)")
+                if rp.ok:
+                    ctx.add("traces_validated_against_impl", 1)
+                    ctx.add("stw_operations_in_traces", sum(1 for e in view if e["ev"] == "op_begin"))
+                else:
+                    msg = " ".join(l for l in rp.out.splitlines() if "REJECTED" in l)[:500]
+                    ctx.violation(f"{what}: the recorded run violates AbstractStw: {msg}",
+                                  {"source": open(src).read(), "backend": backend, "gc": gc, "trace_tail": view[-300:]}, key="storm-trace")
+                    return
 
 
 def do_negative_controls(ctx, cfg, vfile):
